@@ -28,8 +28,8 @@ let state_of (w : world) (i : int) : string =
     let str = if iz b.b_total = 0 then "" else
       Printf.sprintf " backoff(%dms [%s])" (iz b.b_total)
         (String.concat " " (List.map (fun c -> try Hashtbl.find cfgname (iz c.c_id) with Not_found -> "?") b.b_cfgs)) in
-    Printf.sprintf "%d=%d,%d,%d,%d,%d,%d,%d,%d|%s|%s|%s|%s|%s|%s" i (iz b.b_max) (iz b.b_total) (iz b.b_excl) (iz b.b_errnum)
-      (int_of_nat b.b_ctx) (match b.b_vars with Some v -> int_of_nat v | None -> -1) (iz (killed_sig w b)) ttimes
+    Printf.sprintf "%d=%d,%d,%d,%d,%d,%d,%d,%d,%d|%s|%s|%s|%s|%s|%s" i (iz b.b_max) (iz b.b_total) (iz b.b_excl) (iz b.b_errnum)
+      (int_of_nat b.b_ctx) (match b.b_vars with Some v -> int_of_nat v | None -> -1) (iz (killed_sig w b)) ttimes (if b.b_keep then 1 else 0)
       (dots (fun e -> string_of_int (iz e)) (latest_errs b))
       (amap b.b_sleep) (amap b.b_times)
       (dots (fun c -> string_of_int (iz c.c_id)) b.b_cfgs)
@@ -82,6 +82,7 @@ let () =
           | "B" -> OBackoff (nati (a 0), Hashtbl.find cfgtab (a 1), zi (a 2), zi (a 3), zi (a 5))
           | "SE" -> OSetErr (zi (a 0), zi (a 1))
           | "SC" -> OSetCtx (nati (a 0), nati (a 1))
+          | "KG" -> OKeepGoing (nati (a 0))
           | "SF" -> let c = Hashtbl.find cfgtab (a 0) in
                     Hashtbl.replace cfgtab (a 0) { c with c_base = zi (a 1); c_cap = zi (a 2); c_jit = zi (a 3) };
                     ONewVars (Z0, Z0) (* placeholder, not executed *)
